@@ -257,10 +257,11 @@ class PEval(object):
         if isinstance(n, (ast.GeneratorExp, ast.ListComp)):
             return self.comp(n, env, depth)
         if isinstance(n, ast.Call) and isinstance(n.func, ast.Name) and n.func.id == 'getattr' and len(n.args) == 3 and not n.keywords \
-                and isinstance(n.args[1], ast.Constant) and isinstance(n.args[2], ast.Constant) and n.func.id not in env:
+                and isinstance(n.args[1], ast.Constant) and (isinstance(n.args[2], ast.Constant) or (isinstance(n.args[2], (ast.Tuple, ast.List)) and not n.args[2].elts)
+                                                              or (isinstance(n.args[2], ast.Dict) and not n.args[2].keys)) and n.func.id not in env:
             # an optional attribute read with a constant default: the attribute exists only on objects built with an opt-in feature; every object an
             # existing caller builds answers with the default (new optional features are judged at their defaults)
-            return n.args[2].value
+            return n.args[2].value if isinstance(n.args[2], ast.Constant) else (() if isinstance(n.args[2], ast.Tuple) else [] if isinstance(n.args[2], ast.List) else {})
         if isinstance(n, ast.Call):
             f = self.ev(n.func, env, depth)
             kwargs = {}
